@@ -214,8 +214,22 @@ BLOCKS = {
     'penalty': ('switch', 'N', 'A\\penalty 100 B%(n)s.\n'),
     'assign_probe': ('switch', 'R', '\\parindent=9pt Q%(n)s:\\ifdim\\parindent=9pt Y\\else N\\fi.\n'),
     'listings_pkg': ('resources', 'W', 'Uses listings resources %(n)s.\n'),
+    # conditionals: every argument form of the argument scanner's token types (Tok, XTok, Number, Dimen) on every exit path
+    'ifx_macros_multi': ('switch', 'W', '\\def\\fxa{xy}\\def\\fxb{xy}\\ifx\\fxa\\fxb S\\else D\\fi%(n)s.\n'),
+    'ifx_macros_single': ('switch', 'W', '\\def\\fxa{x}\\def\\fxb{y}\\ifx\\fxa\\fxb S\\else D\\fi%(n)s.\n'),
+    'ifx_macros_empty': ('switch', 'W', '\\def\\fxa{}\\ifx\\fxa\\empty S\\else D\\fi%(n)s.\n'),
+    'ifx_chars': ('switch', 'W', '\\ifx ab S\\else D\\fi%(n)s.\n'),
+    'ifx_groups': ('switch', 'W', '\\ifx{ab}{ab} S\\else D\\fi \\ifx{a}{a} S\\else D\\fi%(n)s.\n'),
+    'ifx_undefined': ('switch', 'W', '\\ifx\\fxundefined\\relax S\\else D\\fi%(n)s.\n'),
+    'if_chars': ('switch', 'W', '\\if aa S\\else D\\fi \\ifcat a1 S\\else D\\fi%(n)s.\n'),
+    'ifnum_forms': ('switch', 'W', '\\ifnum 1<2 S\\else D\\fi \\ifnum\\value{section}=0 S\\else D\\fi \\ifodd 3 S\\else D\\fi%(n)s.\n'),
+    'ifdim_forms': ('switch', 'W', '\\ifdim 1pt<2pt S\\else D\\fi \\ifdim\\parindent>\\textwidth S\\else D\\fi%(n)s.\n'),
+    'ifcase_form': ('switch', 'W', '\\ifcase 1 zero\\or one\\or two\\else other\\fi%(n)s.\n'),
+    'ifthenelse_forms': ('switch', 'W', '\\ifthenelse{\\equal{ab}{ab}}{S}{D} \\ifthenelse{1<2}{S}{D} \\ifthenelse{\\isodd{3}}{S}{D}%(n)s.\n'),
+    'newcount_assign': ('switch', 'R', '\\newcount\\fxtotal \\fxtotal=42 T\\the\\fxtotal. \\parskip=2pt plus 1pt Q%(n)s.\n'),
+    'dimen_args_unitless': ('switch', 'W', 'A\\hspace{2}B\\vspace{1}C\\parbox{3}{box%(n)s}D\\rule{1}{2pt}E.\n'),
 }
-NEEDS = {'xcolor_define': ['xcolor'], 'xcolor_redefine': ['xcolor'], 'xcolor_provide': ['xcolor'], 'xcolor_use': ['xcolor'],
+NEEDS = {'ifthenelse_forms': ['ifthen'], 'xcolor_define': ['xcolor'], 'xcolor_redefine': ['xcolor'], 'xcolor_provide': ['xcolor'], 'xcolor_use': ['xcolor'],
          'amsthm_style': ['amsthm'], 'amsthm_plain': ['amsthm'], 'amsopn_declare': ['amsmath'], 'amsopn_provide': ['amsmath'],
          'hypersetup': ['hyperref'], 'href_plain': ['hyperref'], 'natbib_style': ['natbib'], 'natbib_cite': ['natbib'],
          'index_entries': ['makeidx'], 'index_print': ['makeidx'], 'lstset': ['listings'], 'lstlisting': ['listings'],
